@@ -281,3 +281,50 @@ func extractWait() {
 	emit("\n/-- every protocol's SendMsg/RecvMsg: deadline timer placement and guard, best-effort wiring, fail-no-peers pre-check, select cases -/\n")
 	emit("def waitSites : List WaitSite := [\n%s\n]\n", strings.Join(rows, ",\n"))
 }
+
+// reference-count discipline of message.go: statement lists of Free, Clone, MakeUnique, Dup and the tail of NewMessage
+// (calls to the verif-tag ledger hooks are left out; their arguments are not)
+func extractMsgShapes() {
+	p := loadPkg(".")
+	rows := []string{}
+	for _, fn := range []struct{ recv, name string }{{"Message", "Free"}, {"Message", "Clone"}, {"Message", "MakeUnique"}, {"Message", "Dup"}, {"", "NewMessage"}} {
+		fd := p.fn(fn.recv, fn.name)
+		if fd == nil {
+			unrec("message.go:"+fn.name, "function not found")
+			continue
+		}
+		var st []string
+		var walk func(l []ast.Stmt, depth int)
+		walk = func(l []ast.Stmt, depth int) {
+			for _, x := range l {
+				pre := strings.Repeat(">", depth)
+				switch y := x.(type) {
+				case *ast.IfStmt:
+					st = append(st, pre+"if "+exprString(y.Cond))
+					walk(y.Body.List, depth+1)
+				case *ast.ForStmt:
+					st = append(st, pre+"for")
+					walk(y.Body.List, depth+1)
+				case *ast.RangeStmt:
+					st = append(st, pre+"range "+exprString(y.X))
+					walk(y.Body.List, depth+1)
+				default:
+					b := stmtBrief(x)
+					// verifOnClone(m, atomic.AddInt32(&m.refcnt,1)) -> the wrapped operation
+					if strings.HasPrefix(b, "verifOn") {
+						if i := strings.Index(b, "atomic."); i >= 0 {
+							b = strings.TrimSuffix(b[i:], ")")
+						} else {
+							continue
+						}
+					}
+					st = append(st, pre+b)
+				}
+			}
+		}
+		walk(fd.Body.List, 0)
+		rows = append(rows, fmt.Sprintf("(%s, %s)", leanStr(fn.name), leanStrList(st)))
+	}
+	emit("\n/-- message.go: the reference-count operations as read -/\n")
+	emit("def msgShapes : List (String × List String) := [\n  %s\n]\n", strings.Join(rows, ",\n  "))
+}
